@@ -188,17 +188,41 @@ func c20Faithful(c *Ctx) {
 			continue
 		}
 		nW++
-		a := call.Call.Args[0]
-		isTCP, _ := mustPass(fw, call, GEq(func(v ssa.Value) bool { _, f, ok := fieldLoad(strip(v)); return ok && f.Name() == "Proto" }, func(v ssa.Value) bool { s, ok := constString(v); return ok && s == "tcp" }))
-		if isTCP {
-			c.Check(a == ssa.Value(data), rule, "forward tcp-write", call.Pos(), "a TCP KDC receives exactly the embedded Kerberos message", "the bytes written to a TCP KDC are not the decoded message unchanged")
-		} else {
-			sl, ok := a.(*ssa.Slice)
-			k := int64(-1)
-			if ok && sl.Low != nil {
-				k, _ = constInt(sl.Low)
+		// the bytes written: chosen in forward, or by a helper that is handed the message
+		type wsite struct {
+			fn   *ssa.Function
+			at   ssa.Instruction
+			v    ssa.Value
+			data ssa.Value
+		}
+		sites := []wsite{{fw, call, call.Call.Args[0], data}}
+		if hc, ok := strip(call.Call.Args[0]).(*ssa.Call); ok {
+			if h := hc.Call.StaticCallee(); h != nil && IsFirstParty(h) && h.Blocks != nil {
+				for j, x := range hc.Call.Args {
+					if x == ssa.Value(data) && j < len(h.Params) {
+						sites = nil
+						for _, r := range returnsOf(h) {
+							if len(r.Results) == 1 {
+								sites = append(sites, wsite{h, r, r.Results[0], h.Params[j]})
+							}
+						}
+					}
+				}
 			}
-			c.Check(ok && sl.X == ssa.Value(data) && k == 4 && sl.High == nil, rule, "forward udp-write", call.Pos(), "a UDP KDC receives the message without its 4-byte length prefix", "the bytes written to a UDP KDC are not the message minus its 4-byte length prefix")
+		}
+		for _, ws := range sites {
+			a := ws.v
+			isTCP, _ := mustPass(ws.fn, ws.at, GEq(func(v ssa.Value) bool { _, f, ok := fieldLoad(strip(v)); return ok && f.Name() == "Proto" }, func(v ssa.Value) bool { s, ok := constString(v); return ok && s == "tcp" }))
+			if isTCP {
+				c.Check(a == ws.data, rule, "forward tcp-write", ws.at.Pos(), "a TCP KDC receives exactly the embedded Kerberos message", "the bytes written to a TCP KDC are not the decoded message unchanged")
+			} else {
+				sl, ok := a.(*ssa.Slice)
+				k := int64(-1)
+				if ok && sl.Low != nil {
+					k, _ = constInt(sl.Low)
+				}
+				c.Check(ok && sl.X == ws.data && k == 4 && sl.High == nil, rule, "forward udp-write", ws.at.Pos(), "a UDP KDC receives the message without its 4-byte length prefix", "the bytes written to a UDP KDC are not the message minus its 4-byte length prefix")
+			}
 		}
 	}
 	// reply returned = first value received from the channel
@@ -386,6 +410,7 @@ func c20Answers(c *Ctx) {
 		if ok {
 			c.OK(rule, s.Key(), s.Pos, "%s", how)
 		} else {
+			c.nextAlt = s.AltKey(c)
 			c.Bad(rule, s.Key(), s.Pos, "%s can panic: the handler dies without an HTTP response (net/http closes the connection)", s.Expr)
 		}
 	}
